@@ -23,6 +23,8 @@ import time
 
 from harness import c12_decisions as DEC
 from harness import c12_frontends as FE
+from harness import c12_keys as KEYS
+from harness import c12_operators as OPS
 from harness import c12_registry as REG
 from harness import common
 
@@ -104,10 +106,51 @@ def regenerate(ctx):
     # when the key is not recognised the model keeps the proven key; the replay below then looks for a failing history
     eqname = {"eq": "py_eq", "signed": "key_eq_signed", None: "key_eq_signed"}[kind]
     regenerate_decisions(ctx)
+    regenerate_operators(ctx)
     ctx.gen("CacheKey", "(* GENERATED by harness/c12.py from onnxscript/_internal/builder.py (_get_or_create_constant) -- do not edit. *)\n"
                         "Require Import OV.Autocast.Autocast.\n"
                         f"Definition current_key_eq : scalar -> scalar -> bool := {eqname}.\n"
                         f"Definition current_key_signed : bool := {'true' if kind != 'eq' else 'false'}.\n")
+
+
+# the operator table Props/C12_operators.v is about when converter.py / tensor.py cannot be read (the broken translator tie is
+# reported after the correspondence run had its chance to find a failing input)
+_EXPECTED_SPELLINGS = [("Add", "Add"), ("BitAnd", "And"), ("BitOr", "Or"), ("Div", "Div"), ("Eq", "Equal"), ("Gt", "Greater"),
+                       ("GtE", "GreaterOrEqual"), ("Lt", "Less"), ("LtE", "LessOrEqual"), ("MatMult", "MatMul"), ("Mod", "Mod"),
+                       ("Mult", "Mul"), ("NotEq", "Equal"), ("Pow", "Pow"), ("Sub", "Sub")]
+
+
+def regenerate_operators(ctx):
+    R = common.REPO
+    errors = []
+    try:
+        rows = OPS.translate_converter(os.path.join(R, "onnxscript/_internal/converter.py"))
+    except (REG.TranslationError, SyntaxError, OSError, Exception) as e:  # noqa: BLE001
+        errors.append(("onnxscript/_internal/converter.py (operator spellings)", f"{type(e).__name__}: {e}"))
+        rows = [dict(py=py, sym=OPS.SYMBOL[py], kind="compare" if py in OPS.COMPARES else "binary", name=em, cast=em, emit=em,
+                     post="Not" if py == "NotEq" else None, operands_cast=True, order="LR") for py, em in _EXPECTED_SPELLINGS]
+    try:
+        methods = OPS.translate_tensor(os.path.join(R, "onnxscript/tensor.py"))
+    except (REG.TranslationError, SyntaxError, OSError, Exception) as e:  # noqa: BLE001
+        errors.append(("onnxscript/tensor.py (operator methods)", f"{type(e).__name__}: {e}"))
+        methods = {}
+    ctx.gen("C12Operators", OPS.to_coq(rows, methods))
+    # the boolean the theorem C12_operator_spelling_is_op is computed from, evaluated here as well: when it fails the
+    # proof is expected to fail and the correspondence run goes on to look for the input on which it shows
+    import onnx.defs
+
+    def has_schema(name, v):
+        try:
+            onnx.defs.get_schema(name, v, "")
+            return True
+        except onnx.defs.SchemaError:
+            return False
+    differ = []
+    for r in rows:
+        if r["kind"] in ("binary", "compare"):
+            if not r["operands_cast"] or r["cast"] != r["emit"] or not all(has_schema(r["emit"], v) for v in REG.OPSETS):
+                differ.append(f"`{r['sym']}`: cast-like step by the signature of {r['cast']!r}, node {r['emit']!r}, operands cast: {r['operands_cast']}")
+    _STATE.update(op_rows=rows, op_methods=methods, op_errors=errors, op_differ=differ)
 
 
 _EXPECTED = dict(
@@ -324,33 +367,97 @@ def _kw_able(c):
     return True
 
 
-OPERATORS = [("+", "Add", True), ("-", "Sub", True), ("*", "Mul", True), ("/", "Div", False), ("**", "Pow", False),
-             ("<", "Less", False), ("<=", "LessOrEqual", False), (">", "Greater", False), (">=", "GreaterOrEqual", False),
-             ("==", "Equal", False)]
-
-
 def operator_cases(ctx, reg):
-    """the same promotion reached through Python operator syntax: `a0 + 1`, `2 * a0` in a script function and on
-    an eager Tensor (whose default opset is 18); the builder has no operator syntax and is called as op.Add(...)"""
+    """the same promotion reached through Python OPERATOR syntax, for every spelling of the table read from converter.py
+    (+ - * / % ** @ & | == != < <= > >=), with the literal on either side: `a0 != 2.5` / `2.5 != a0` as source text of a
+    script function, the same expression on an eager Tensor (Python's data model picks the method: reflected for
+    arithmetic, mirrored for comparisons; absent when tensor.py has none, e.g. `5 % x`), and -- the builder has no
+    operator syntax -- the mapped operator called on the builder.  `-3`, `-0.0` in source text ARE unary minus applied
+    to a constant (folded by _translate_unary_op_expr)."""
     import onnx.defs
     idx = {(r["name"], r["since"]): i for i, r in enumerate(reg)}
+    rows = [r for r in (_STATE.get("op_rows") or []) if r["kind"] in ("binary", "compare")]
+    methods = _STATE.get("op_methods") or {}
     res = []
-    for sym, name, reflected in OPERATORS:
-        since = onnx.defs.get_schema(name, 18, "").since_version
-        si = idx.get((name, since))
-        if si is None:
-            continue
-        codes = reg[si]["formals"][0]["codes"]
-        for side in (("TL", "LT") if reflected else ("TL",)):
-            for lit in LITERALS:
-                ds = codes if ctx.tier == "thorough" else ctx.rng.sample(codes, 3)
-                for d in ds:
-                    # Pow(X: T, Y: T1): the exponent has its own constraint -> no sibling
-                    shares = reg[si]["formals"][0]["tstr"] == reg[si]["formals"][1]["tstr"]
-                    args = [("T", d, True), ("L", lit)] if side == "TL" else [("L", lit), ("T", d, True)]
-                    res.append(dict(schema=reg[si], si=si, args=args, pos=1 if side == "TL" else 0, lit=lit,
-                                    d=d if shares else None, group=None, syntax=sym, opset=18))
+    for row in rows:
+        for side in ("TL", "LT"):
+            route = OPS.eager_route(row["py"], side, methods)
+            opsets = [18] + ([ctx.rng.choice([13, 14, 15, 16, 17, 19, 20, 21, 22, 23])] if ctx.tier == "quick" else [13, 23, ctx.rng.choice([14, 15, 16, 17, 19, 20, 21, 22])])
+            for opset in opsets:
+                try:
+                    since = onnx.defs.get_schema(row["emit"], opset, "").since_version
+                except onnx.defs.SchemaError:
+                    continue
+                si = idx.get((row["emit"], since))
+                if si is None or len(reg[si]["formals"]) != 2:
+                    continue
+                F = reg[si]["formals"]
+                tpos, lpos = (0, 1) if side == "TL" else (1, 0)
+                codes = F[tpos]["codes"]
+                shares = F[0]["tstr"] == F[1]["tstr"] and F[0]["is_var"]
+                for lit in LITERALS:
+                    if ctx.tier == "thorough":
+                        ds = codes
+                    else:
+                        # always a sibling whose type is not the literal's default (DOUBLE, INT32, FLOAT16), then random ones
+                        fixed = [c for c in (11, 6, 10) if c in codes][:2]
+                        rest = [c for c in codes if c not in fixed]
+                        ds = fixed + ctx.rng.sample(rest, min(len(rest), 3 - len(fixed)))
+                    for d in ds:
+                        args = [None, None]
+                        args[tpos], args[lpos] = ("T", d, True), ("L", lit)
+                        res.append(dict(schema=reg[si], si=si, args=args, pos=lpos, lit=lit, d=d if shares else None, group=None,
+                                        syntax=row["sym"], opset=opset, post=row["post"], eager_route=route, side=side))
     return res
+
+
+def lookup_history_cases(ctx, reg):
+    """schema-LOOKUP histories: an operator is looked up first at an opset that predates it (no schema: the converter and
+    eager mode refuse, the builder makes a node without promotion), then at an opset where it exists -- with a literal
+    beside a sibling whose type is not the literal's default.  Every front end keeps state between the two steps
+    (values.Opset.cache, per-Op signature memo, module globals): the second step must promote as if it were the first."""
+    import onnx.defs
+    rng = ctx.rng
+    names = sorted({r["name"] for r in reg})
+    late = []
+    for n in names:
+        try:
+            onnx.defs.get_schema(n, 13, "")
+        except onnx.defs.SchemaError:
+            late.append(n)
+    by_si = {}
+    for g in groups(reg):
+        by_si.setdefault(g["si"], []).append(g)
+    res = []
+    for n in late:
+        sis = [i for i, r in enumerate(reg) if r["name"] == n]
+        first = min(reg[i]["since"] for i in sis)
+        for si in sis:
+            gs = [g for g in by_si.get(si, []) if g["sharing"] and g["variant"] in ("single", "var-tail")] or by_si.get(si, [])
+            if not gs:
+                continue
+            g = gs[0] if ctx.tier == "quick" else rng.choice(gs)
+            valid = [v for v in REG.OPSETS if _since(n, v) == reg[si]["since"]]
+            if not valid:
+                continue
+            for lit in ([1, 2.5] if ctx.tier == "quick" else [1, 2.5, True, [1, 2]]):
+                ds = [d for d in g["dtypes"] if d is not None and d != {int: 7, float: 1, bool: 9}[type(flatten(lit)[0])]]
+                d = ([x for x in (6, 11, 10, 2) if x in ds] or ds or g["dtypes"])[0]
+                early = sorted({13, first - 1})
+                hist = {"quick": [early[-1:]], "thorough": [early[-1:], early, early + [valid[-1]] + early[-1:]]}[ctx.tier]
+                for h in hist:
+                    c = concretize(reg, g, lit, d)
+                    c.update(opset=valid[0] if len(h) < 3 else valid[-1], history=list(h), group=None, stream="lookup-history")
+                    res.append(c)
+    return res
+
+
+def _since(name, v):
+    import onnx.defs
+    try:
+        return onnx.defs.get_schema(name, v, "").since_version
+    except onnx.defs.SchemaError:
+        return None
 
 
 def corpus_cases(reg):
@@ -434,6 +541,8 @@ def c_value(e, code):
 
 
 def c_obs(o):
+    if o[0] == "ABSENT":
+        return "(ObsErr Unmodelled)"          # this front end has no such spelling: its bits of the case code are masked out
     if o[0] == "ERR":
         return "(ObsErr Overflow)" if o[1] == "OverflowError" else "(ObsErr MixedList)"
     _, code, _rank, elems = o
@@ -469,8 +578,15 @@ def describe(c):
     d = dict(op=f"{r['name']}-{r['since']} (opset {c.get('opset', r['use'])})", args=[list(a) for a in c["args"]], pos=c["pos"])
     if c.get("syntax"):
         d["syntax"] = c["syntax"]
+        d["source"] = " ".join([("a" if a[0] == "T" else repr(a[1])) if i != 1 else c["syntax"] + " " + ("a" if a[0] == "T" else repr(a[1]))
+                                for i, a in enumerate(c["args"])])
+        d["opset"] = c.get("opset")
     if c.get("kw_from") is not None:
         d["kw_from"] = c["kw_from"]
+    if c.get("history"):
+        d["history"] = [f"the same call at opset {v}" for v in c["history"]] + [f"then at opset {c['opset']}"]
+        d["history_opsets"] = list(c["history"])
+        d["opset"] = c["opset"]
     return d
 
 
@@ -482,10 +598,14 @@ def direct_oracle(ctx, c, obs, stats):
     """the property itself on the real code: the three operands agree (element type, rank, values).
     Returns True when the property holds on this case."""
     names = ("converter", "eager", "builder")
-    errs = [o[0] == "ERR" for o in obs]
     lit, d = c["lit"], c["d"]
     cls = lit_class(lit)
     rep = dict(describe(c), converter=obs[0], eager=obs[1], builder=obs[2])
+    if obs[1][0] == "ABSENT":
+        # the spelling does not exist on the eager Tensor (e.g. `5 % x`: no __rmod__): two front ends to compare
+        stats["eager_absent"] = stats.get("eager_absent", 0) + 1
+        obs = (obs[0], obs[0], obs[2])
+    errs = [o[0] == "ERR" for o in obs]
     ok = True
     if cls == "empty-list":
         # no Python type to go by: the converter and eager mode refuse / do not promote it by design; only require
@@ -760,12 +880,12 @@ def _run(ctx):
     ctx.trust("coq/Gen/Schemas.v is printed from onnx.defs of the installed onnx by harness/c12_registry.py (fail-closed on unknown type strings)")
     t0 = time.time()
     ok = ctx.check_props()
-    okb, _ = ctx.build(["Gen/CacheKey.vo", "Gen/C12Variant.vo", "Gen/C12Decisions.vo"])
+    okb, _ = ctx.build(["Gen/CacheKey.vo", "Gen/C12Variant.vo", "Gen/C12Decisions.vo", "Gen/C12Operators.vo"])
     reg = _STATE.get("reg")
     report_decisions(ctx)
     # when the only reason for a failed proof is a decision flag that changed in the source, go on: the models and
     # the registry still build and the correspondence run below looks for the input on which the change shows
-    if reg is None or not okb or (not ok and not _STATE.get("dec_differ")):
+    if reg is None or not okb or (not ok and not _STATE.get("dec_differ") and not _STATE.get("op_differ")):
         return
     ctx.obligation("registry: forallb schema_okb Gen.Schemas.all = true re-proved against the regenerated registry "
                    f"({len(reg)} schemas)", True)
@@ -774,7 +894,8 @@ def _run(ctx):
     oracle = FE.CastOracle()
     gs, cases = make_cases(ctx, reg)
     ops = operator_cases(ctx, reg)
-    cases = corpus_cases(reg) + ops + cases
+    hcs = lookup_history_cases(ctx, reg)
+    cases = corpus_cases(reg) + hcs + ops + cases
     # ---- converter: compile generated script functions in batches
     t1 = time.time()
     fns = []
@@ -789,6 +910,11 @@ def _run(ctx):
     t2 = time.time()
     passthrough_bad = []
     for c, fn in zip(cases, fns):
+        for v in c.get("history", []):
+            # the earlier steps of a lookup history (the converter's were translated with the batch, in order)
+            pre = dict(c, opset=v)
+            FE.run_eager(pre)
+            FE.run_builder(pre, oracle)
         oc, ok_c = FE.read_converter(c, fn, oracle)
         oe, ok_e = FE.run_eager(c)
         ob, ok_b = FE.run_builder(c, oracle)
@@ -799,7 +925,7 @@ def _run(ctx):
                 passthrough_bad.append((nm, describe(c)))
         g = c["group"]
         f = c["schema"]["formals"][g["fi"]] if g else None
-        ctx.case((g["variant"] if g else ("operator " + c["syntax"] if c.get("syntax") else "corpus"), g["cfg"] if g else "", f["opt"] if f else "", bool(f and f["is_var"]),
+        ctx.case((g["variant"] if g else ("lookup-history %d" % len(c["history"]) if c.get("history") else "operator " + c["syntax"] + " " + c.get("side", "") if c.get("syntax") else "corpus"), g["cfg"] if g else "", f["opt"] if f else "", bool(f and f["is_var"]),
                   lit_kind(c["lit"]), lit_class(c["lit"]), c.get("kw_from") is not None, f["homog"] if f else None, dtname(c["d"]),
                   tuple(a[2] for a in c["args"] if a[0] == "T" and len(a) > 2 and not a[2]) != ()))
         holds.append(direct_oracle(ctx, c, obs, stats))
@@ -824,6 +950,9 @@ def _run(ctx):
             return
         for m in re.finditer(r"\((\d+)(?:%N)?,\s*(\d+)(?:%N)?\)", vals[0]):
             i, code = coq_idx[k + int(m.group(1))], int(m.group(2))
+            for fe, bits in enumerate((1 | 8, 2 | 16, 4 | 32)):
+                if observations[i][fe][0] == "ABSENT":
+                    code &= ~bits
             if code & 7 or code & 64:
                 model_bad.append((i, code))
             if code & 56:
@@ -870,7 +999,10 @@ def _run(ctx):
     n_bool_sib = sum(1 for c in cases if isinstance(c["lit"], bool) and c["d"] is not None and c["d"] != 9)
     errs = {n: sum(1 for o in observations if o[k][0] == "ERR") for k, n in enumerate(names)}
     ctx.cover(schemas=len(reg), groups=len(gs), schemas_exercised=len({c["si"] for c in cases}),
-              promotion_cases=len(cases), operator_syntax_cases=len(ops), cases_with_sibling=n_sib, cases_with_unknown_dtype_sibling=n_unknown,
+              promotion_cases=len(cases), operator_syntax_cases=len(ops),
+              operator_spellings=sorted({c["syntax"] + " " + c["side"] for c in ops}), operator_opsets=sorted({c["opset"] for c in ops}),
+              operator_cases_eager_absent=stats.get("eager_absent", 0),
+              lookup_history_cases=len(hcs), lookup_history_ops=sorted({c["schema"]["name"] for c in hcs}), cases_with_sibling=n_sib, cases_with_unknown_dtype_sibling=n_unknown,
               cases_by_literal=by_lit, cases_by_literal_class=by_class, cases_by_position_kind=by_pos,
               bool_literal_beside_non_bool_sibling=n_bool_sib, keyword_passed_operand_cases=sum(1 for c in cases if c.get("kw_from") is not None),
               schema_versions_per_op_max=max(sum(1 for r in reg if r["name"] == n) for n in {r["name"] for r in reg}),
@@ -887,6 +1019,8 @@ def _run(ctx):
                           "NaN literals (cache probe only); deprecated ops (Scatter, Upsample, GroupNormalization-18); custom domains")
     # ---- the constant cache
     check_cache(ctx)
+    import sys as _sys
+    KEYS.run(ctx, _sys.modules[__name__])
     outside_quantifier_probe(ctx, oracle)
     if ctx.tier == "thorough":
         ctx.coqchk(["Props.C12"])
@@ -901,6 +1035,16 @@ def report_decisions(ctx):
                    not differ and not _STATE.get("dec_errors"), json.dumps(differ or _STATE.get("dec_errors"), default=str)[:600])
     if differ:
         _STATE.setdefault("pending_ties", []).append(("translator", "decision flags", json.dumps(differ, default=str)[:600]))
+    for name, why in _STATE.get("op_errors", []):
+        _STATE.setdefault("pending_ties", []).append(("translator", name, why))
+    opd = _STATE.get("op_differ") or []
+    ctx.obligation("translator operators: for every python operator of primop_map the cast-like step of _translate_binary_op_expr / "
+                   "_translate_compare_expr is driven by the signature of the operator whose node receives the operands "
+                   f"({len([r for r in _STATE.get('op_rows', []) if r['kind'] in ('binary', 'compare')])} spellings, "
+                   f"{len(_STATE.get('op_methods', {}))} Tensor methods)", not opd and not _STATE.get("op_errors"),
+                   json.dumps(opd or _STATE.get("op_errors"), default=str)[:600])
+    if opd:
+        _STATE.setdefault("pending_ties", []).append(("translator", "operator spellings", json.dumps(opd)[:600]))
     un, missing = _STATE.get("cache_unmodelled", []), _STATE.get("cache_missing", [])
     ctx.obligation("translator caches: every functools cache decorator / dict memo in the anchored files has a modelled key "
                    f"({len(_STATE.get('cache_inventory', []))} found)", not un and not missing, json.dumps(dict(unmodelled=un, vanished=missing))[:600])
@@ -957,8 +1101,29 @@ def outside_quantifier_probe(ctx, oracle):
 def replay(doc):
     """./check C12 --replay <path>: re-run the recorded input on the current code and print what is observed"""
     r = doc.get("replay", {})
+    if "source" in r and "requests" in r:
+        # a subscript whose slice operands come from the converter's per-subscript constant cache
+        import tempfile
+        with tempfile.TemporaryDirectory(prefix="osverif-") as td:
+            open(os.path.join(td, "c12_replay_sub.py"), "w").write(
+                "from onnxscript import script\nfrom onnxscript.onnx_types import FLOAT\nfrom onnxscript.onnx_opset import opset18 as op18\n"
+                f"@script(default_opset=op18)\ndef f(x: FLOAT[4, 4]):\n    return {r['source']}\n")
+            import sys as _s
+            _s.path.insert(0, td)
+            import importlib as _il
+            g = _il.import_module("c12_replay_sub").f.function_ir.graph
+        bad = 0
+        for n in g:
+            if n.op_type == "Constant":
+                t = n.attributes["value"].value
+                print(n.outputs[0].name, t.dtype.name, t.numpy().tolist())
+                bad += t.dtype.name == "BOOL"
+        print("requests (axis, step, lower, upper per sliced axis):", r["requests"], "-> returned", r.get("returned"), "expected", r.get("expected"))
+        return 1 if bad or r.get("returned") != r.get("expected") else 0
     if "history" in r:
-        h = [(l, d) for l, d in r["history"]]
+        # literals recorded as python source (NaN / inf have no JSON form); every `nan` is a fresh float object
+        env = {"nan": float("nan"), "inf": float("inf")}
+        h = [((eval(l.replace("nan", "float('nan')"), {"float": float, "inf": float("inf")}) if isinstance(l, str) else l), d) for l, d in r["history"]]
         tr = run_history(h, None)
         memo = {}
         for i, ((lit, d), (owner, obs)) in enumerate(zip(h, tr)):
@@ -974,14 +1139,24 @@ def replay(doc):
         si = idx[(m.group(1), int(m.group(2)))]
         args = [tuple(a) for a in r["args"]]
         c = dict(schema=reg[si], si=si, args=args, pos=r["pos"], lit=args[r["pos"]][1], d=None, group=None)
+        if r.get("history_opsets"):
+            c.update(history=list(r["history_opsets"]), opset=r["opset"])
         if r.get("syntax"):
-            c.update(syntax=r["syntax"], opset=18)
+            OPS_rows = OPS.translate_converter(os.path.join(common.REPO, "onnxscript/_internal/converter.py"))
+            row = [x for x in OPS_rows if x["sym"] == r["syntax"] and x["kind"] in ("binary", "compare")][0]
+            side = "TL" if r["pos"] == 1 else "LT"
+            c.update(syntax=r["syntax"], opset=r.get("opset") or 18, post=row["post"], side=side,
+                     eager_route=OPS.eager_route(row["py"], side, OPS.translate_tensor(os.path.join(common.REPO, "onnxscript/tensor.py"))))
         oracle = FE.CastOracle()
         with tempfile.TemporaryDirectory(prefix="osverif-") as td:
             fn = FE.compile_scripts([c], td, f"{os.getpid()}_replay")[0]
+            for v in c.get("history", []):
+                FE.run_eager(dict(c, opset=v))
+                FE.run_builder(dict(c, opset=v), oracle)
             obs = (FE.read_converter(c, fn, oracle)[0], FE.run_eager(c)[0], FE.run_builder(c, oracle)[0])
         for n, o in zip(("converter", "eager", "builder"), obs):
             print(n, o)
-        return 0 if obs[0] == obs[1] == obs[2] else 1
+        live = [o for o in obs if o[0] != "ABSENT"]
+        return 0 if all(o == live[0] for o in live) else 1
     print(json.dumps(doc, indent=1))
     return 0
